@@ -268,3 +268,6 @@ func (s *SourceControl) VerifActiveKind() string {
 	}
 	return ""
 }
+
+// VerifC10SetAutoRestart sets what LanceroSourceConfig.ShouldAutoRestart would set.
+func (ls *LanceroSource) VerifC10SetAutoRestart(b bool) { ls.shouldAutoRestart = b }
